@@ -50,26 +50,49 @@ func (b Boolean) Name() string {
 // String represents string values.
 type String string
 
+// escapeSequences maps the character that follows a backslash in a FHIRPath
+// escape sequence to the character the sequence denotes.
+var escapeSequences = map[byte]byte{
+	'\'': '\'',
+	'"':  '"',
+	'`':  '`',
+	'r':  '\r',
+	't':  '\t',
+	'n':  '\n',
+	'f':  '\f',
+	'\\': '\\',
+	'/':  '/',
+}
+
 // ParseString parses the input string and replaces FHIRPath
 // escape sequences with their Go-equivalent escape characters.
+// A backslash that does not start an escape sequence is ignored.
 func ParseString(input string) (String, error) {
-	escSequences := []string{
-		"\\'", "'",
-		"\\\"", "\"",
-		"\\`", "`",
-		"\\r", "\r",
-		"\\t", "\t",
-		"\\n", "\n",
-		"\\f", "\f",
-		"\\\\", "\\",
-		"\\", "",
-		// TODO PHP-5581
-	}
 	input = strings.TrimPrefix(input, "'")
 	input = strings.TrimSuffix(input, "'")
-	replacer := strings.NewReplacer(escSequences...)
-	escapedString := replacer.Replace(input)
-	return String(escapedString), nil
+	var sb strings.Builder
+	for i := 0; i < len(input); i++ {
+		if input[i] != '\\' {
+			sb.WriteByte(input[i])
+			continue
+		}
+		if i+1 < len(input) {
+			if c, ok := escapeSequences[input[i+1]]; ok {
+				sb.WriteByte(c)
+				i++
+				continue
+			}
+			// \uXXXX: a Unicode character given by four hexadecimal digits.
+			if input[i+1] == 'u' && i+5 < len(input) {
+				if cp, err := strconv.ParseUint(input[i+2:i+6], 16, 32); err == nil {
+					sb.WriteRune(rune(cp))
+					i += 5
+					continue
+				}
+			}
+		}
+	}
+	return String(sb.String()), nil
 }
 
 // Equal returns true if the input value is a System String,
